@@ -77,6 +77,21 @@ def positions(parts, n):
     return sorted(out)
 
 
+def reading(parts, n):
+    """the nucleotides of a location in the order the feature reads them (its own 5'->3'): parts in listed order,
+    a minus-strand part from its end to its start; None when a part has no strand (no reading direction)"""
+    if not parts or any(st not in (1, -1) for (_, _, st) in parts):
+        return None
+    out = []
+    for (s, e, st) in parts:
+        rng_ = range(s, e) if st == 1 else range(e - 1, s - 1, -1)
+        out.extend((t % n, st) for t in rng_)
+    if len(parts) == 1 and len(out) == n and n > 0:
+        # one whole turn: a circle has no first nucleotide (the library keeps a whole-plasmid `source` at [0:n])
+        return min(out[i:] + out[:i] for i in range(n))
+    return out
+
+
 def site_positions(parts, n):
     """zero-width parts (between-bases sites): (boundary position mod n, strand)"""
     return sorted((s % n, st) for (s, e, st) in parts if s == e)
